@@ -56,6 +56,7 @@ type c02wfModel struct {
 	Possible     []gcase.TaskJ   `json:"possible"`     // failing cases: every (node, input) submitted under some schedule
 	WF           *bool           `json:"wf"`           // the model's compiled runner satisfies DagWF (hypothesis of workflow_at_most_once)
 	WF2          *bool           `json:"wf2"`          // ... and DagWF2 (hypothesis of dag_enabled_nodes_start)
+	GWF          *bool           `json:"gwf"`          // WorkflowDefWF of the definition (counted)
 	WF3          *bool           `json:"wf3"`          // ... and DagWF3 (hypothesis of the schedule-independence theorems)
 }
 
@@ -339,6 +340,7 @@ func c02wfOne(ctx *vh.Ctx, c *c02wfCase, specs []c02wfRunSpec) error {
 	ctx.Res.Dist(fmt.Sprintf("wf-hypothesis=%v", wfHyp))
 	ctx.Res.Dist(fmt.Sprintf("wf2-hypothesis=%v", model.WF2 != nil && *model.WF2))
 	ctx.Res.Dist(fmt.Sprintf("wf3-hypothesis=%v", model.WF3 != nil && *model.WF3))
+	ctx.Res.Dist(fmt.Sprintf("workflowdef-wf=%v", model.GWF != nil && *model.GWF))
 	for _, sp := range specs {
 		impl := c02wfCompare(ctx, c, model, sp)
 		if impl != nil && !wfHyp {
